@@ -37,7 +37,7 @@ var (
 	// ProfileRefs is reference heavy.
 	ProfileRefs = Profile{MinTables: 2, MaxTables: 4, MinCols: 1, MaxCols: 4, Refs: 8, Indexes: 0, Roots: true, BoundedSets: true}
 	// ProfileIndex is index heavy.
-	ProfileIndex = Profile{MinTables: 1, MaxTables: 2, MinCols: 2, MaxCols: 5, Refs: 1, Indexes: 2, Enums: true, Roots: true, ScalarBias: 6, OptIndexes: true}
+	ProfileIndex = Profile{MinTables: 1, MaxTables: 2, MinCols: 2, MaxCols: 5, Refs: 1, Indexes: 2, Enums: true, Immutable: true, Roots: true, ScalarBias: 6, OptIndexes: true}
 	// ProfileCodec covers the full type space.
 	ProfileCodec = Profile{MinTables: 1, MaxTables: 3, MinCols: 1, MaxCols: 6, Refs: 2, Indexes: 2, Enums: true, AnyEnums: true, AllMapKeys: true, Constraints: true, Immutable: true, Ephemeral: true, Roots: true, BoundedSets: true}
 )
